@@ -7,6 +7,23 @@ use std::{fs, process};
 pub mod crypto;
 pub mod error;
 pub mod logs;
+#[cfg(feature = "breard_r_acmed_verif")]
+pub mod verif_clock {
+	use std::sync::atomic::{AtomicI64, Ordering};
+
+	static UNIX_NOW: AtomicI64 = AtomicI64::new(i64::MIN);
+
+	pub fn set(unix_seconds: Option<i64>) {
+		UNIX_NOW.store(unix_seconds.unwrap_or(i64::MIN), Ordering::SeqCst);
+	}
+
+	pub fn get() -> Option<i64> {
+		match UNIX_NOW.load(Ordering::SeqCst) {
+			i64::MIN => None,
+			t => Some(t),
+		}
+	}
+}
 #[cfg(test)]
 mod tests;
 
